@@ -276,20 +276,7 @@ def check_receivers(eng, run):
     run.ob("C03.sib", "four-receivers-agree", len(vals) == 1, tuples={k: list(v) for k, v in tuples.items()})
 
 
-def explicit_raiser(eng, fn: FunctionInfo, depth=0, seen=None) -> bool:
-    """Does `fn` (transitively through resolved repo callees) contain a `raise` that is not a re-raise in a handler?"""
-    seen = seen or set()
-    if fn.qualname in seen or depth > 3 or isinstance(fn.node, ast.Lambda):
-        return False
-    seen.add(fn.qualname)
-    for n in own_nodes(fn.node):
-        if isinstance(n, ast.Raise) and n.exc is not None:
-            return True
-        if isinstance(n, ast.Call):
-            for t in eng.typer.call_targets(fn, n, dispatch=False):
-                if isinstance(t, FunctionInfo) and explicit_raiser(eng, t, depth + 1, seen):
-                    return True
-    return False
+from sa.analyses.hold import explicit_raiser  # noqa: E402
 
 
 class WrapperHold(HoldAnalysis):
